@@ -433,6 +433,8 @@ def op_to_wire(op):
         return ["$eq", "$" + op[1], "$" + op[2], num_to_wire(op[3]), num_to_wire(op[4])]
     if k == "drop":
         return ["$drop", "$" + op[1]]
+    if k == "nphyp":
+        return ["$nphyp", "$" + op[1], [[[cell_to_wire(c) for c in d], num_to_wire(w)] for d, w in op[2]]]
     if k == "goodrun":
         return ["$goodrun", "$" + op[1], [[[cell_to_wire(c) for c in d], num_to_wire(w)] for d, w in op[2]]]
     if k == "pickle":
